@@ -457,10 +457,30 @@ class shuffled_fs:
         self.mods[0].os, self.mods[1].glob = self.saved
 
 
+def link_equal_files(root):
+    """make the non-empty regular files of equal content below root names of one inode (hard links) -> number of names linked"""
+    first, n = {}, 0
+    for dp, dn, fn in sorted(os.walk(root)):
+        for f in sorted(fn):
+            p = os.path.join(dp, f)
+            if os.path.islink(p) or not os.path.isfile(p) or os.path.getsize(p) == 0:
+                continue
+            with open(p, "rb") as fp:
+                content = fp.read()
+            if content in first:
+                os.unlink(p)
+                os.link(first[content], p)
+                n += 1
+            else:
+                first[content] = p
+    return n
+
+
 class WalkStream(Stream):
     name = "walk"
     rule = ("random directory trees of C03 (37 file names, 14 directory names on both sides of every rule, files / empty files / "
-            "directories / symlinks, depth <=4) x four flag combinations, materialised in a directory named `proj` or `subprojects`: "
+            "directories / symlinks, depth <=4; in every other tree the regular files of equal content are hard links of one inode, with a twin "
+            "of equal size in the root and the directories below it) x four flag combinations, materialised in a directory named `proj` or `subprojects`: "
             "the real iter_files with os.walk handing out every listing in 3 shuffled orders (and unshuffled), and started from 6 "
             "spellings of the root (absolute, '.', './', '../<name>', '<name>/' from the parent, 'sub/..'), vs the model walk over "
             "the tree with every listing reversed vs the covered-files specification; non-trivial = distinct non-empty covered sets")
@@ -468,8 +488,17 @@ class WalkStream(Stream):
 
     def cases(self, tier, rng):
         for i in range(1200 if tier == "thorough" else 150):
-            yield {"tree": c03.rand_tree(rng), "flags": rng.choice(["00", "01", "10", "11"]), "s": rng.randrange(1 << 30),
-                   "rootdir": self.ROOTS[i % 2]}
+            tree = c03.rand_tree(rng)
+            case = {"tree": tree, "flags": rng.choice(["00", "01", "10", "11"]), "s": rng.randrange(1 << 30), "rootdir": self.ROOTS[i % 2]}
+            if i % 2 == 0:
+                # hard links: the regular files of equal content become names of one inode (two, three or more names in different
+                # directories); to have some, a `twin` of equal size is put into the root and into every directory below it
+                twin = (rng.choice(["twin.c", "LICENSE-twin", "twin.license", "a.py"]), ("f", rng.choice([1, 7, 30])))
+                for name, node in [("", ("d", tree))] + [(n, nd) for n, nd in tree if nd[0] == "d"]:
+                    if all(n != twin[0] for n, _ in node[1]) and rng.random() < 0.8:
+                        node[1].append(twin)
+                case["hardlinks"] = True
+            yield case
 
     def impl(self, case):
         from pathlib import Path
@@ -480,6 +509,8 @@ class WalkStream(Stream):
             root = os.path.join(base, name)
             os.makedirs(os.path.join(root))
             c03.materialise(root, case["tree"])
+            if case.get("hardlinks"):
+                link_equal_files(root)
             kw = dict(include_submodules=flags[0] == "1", include_meson_subprojects=flags[1] == "1")
 
             def walk(cwd, spelling):
@@ -682,6 +713,11 @@ def _diff(a, b):
             for kk in a[k]:
                 if kk != "files" and a[k][kk] != b[k].get(kk):
                     out.append("lint.%s: %s <> %s" % (kk, json.dumps(a[k][kk])[:120], json.dumps(b[k].get(kk))[:120]))
+        elif k in ("spdx", "spdxc") and isinstance(a[k], list) and isinstance(b.get(k), list):
+            # blocks of sorted lines: the lines that only one of the two documents has
+            la = {l for blk in a[k] for l in blk}
+            lb = {l for blk in b[k] for l in blk}
+            out.append("%s: lines only in the reference run %s <> only in this run %s" % (k, json.dumps(sorted(la - lb)[:4])[:240], json.dumps(sorted(lb - la)[:4])[:240]))
         else:
             out.append("%s: %s <> %s" % (k, json.dumps(a[k])[:100], json.dumps(b.get(k))[:100]))
     return "; ".join(out[:3])
@@ -697,7 +733,11 @@ class RunsStream(Stream):
             "directories whose names begin with a character on either side of `.`, `/` and `R` in code-point order (` spaced`, `!a`, `#tmp`, "
             "`(third-party)`, `+vendor`, `-x`; `.dot`, `0num`, `:c`, `@at`, `REUSE`, `Zed`, `~t`, non-ASCII; at top level, below `src/`, or "
             "nested in one another), each with an own REUSE.toml (a closest and an override table, resp. a closest half) whose licence "
-            "conflicts with what the outer REUSE.toml says about the same files; in every other tree one to three special files — FIFO, UNIX socket, "
+            "conflicts with what the outer REUSE.toml says about the same files; in every tree a header, a .license sibling and a REUSE.toml list / "
+            "dep5 Copyright field / C comment holding two or three notices equal up to letter case and runs of blanks (`2021 ACME Inc.` / `2021 Acme "
+            "Inc.`, \u00df / SS) in one source; in two trees of three one or two files with two or three hard-linked names in different "
+            "directories (one name of each inode with a .license sibling, names below directories with an own REUSE.toml) and now and then an "
+            "inner REUSE.toml hard-linked into a second directory — every name must have its own report; in every other tree one to three special files — FIFO, UNIX socket, "
             "character device — among the covered files (root, src/, any directory of the tree) and now and then below subprojects/x/; every run "
             "through the worker pool, and every run on a tree with special files, is made in a forked child resp. a session of its own under a time "
             "limit of 120 s, after which the whole process group is killed and the outcome `no result after 120 s` is compared like any other "
@@ -724,7 +764,10 @@ class RunsStream(Stream):
                    "seeds": HASHSEEDS_THOROUGH if tier == "thorough" else HASHSEEDS_QUICK,
                    "plus": R.PLUS_MODES[i % len(R.PLUS_MODES)],
                    # every other tree holds one to three special files (FIFO, socket, character device) among its covered files
-                   "special": i % 2 == 0}
+                   "special": i % 2 == 0,
+                   # hard links: one to two files with two or three names each (one name with a .license sibling), now and then a
+                   # REUSE.toml linked into a second directory — in two trees of three, so that they meet every kind and both `special`
+                   "links": i % 3 != 2}
 
     def impl(self, case):
         import logging
@@ -734,7 +777,10 @@ class RunsStream(Stream):
         with cli.scratch("rv-c14-") as base:
             root = os.path.join(base, "outer", name)
             os.makedirs(root)
+            links, link_files = R.gen_links(case["seed"], case["kind"], files) if case.get("links") else ([], {})
             cli.write_tree(root, files)
+            cli.write_tree(root, link_files)
+            R.make_links(root, links)
             other = os.path.join(base, "elsewhere")
             os.makedirs(other)
             submodules = R.gen_submodules(case["seed"]) if case["kind"] == "git-submodule" else []
@@ -897,6 +943,11 @@ class RunsStream(Stream):
             extra = {"specials": specials, "special_read_errors": sorted(re_)}
         if skipped:
             extra["skipped_after_a_hang"] = skipped
+        if links:
+            reported = {f["path"] for f in base_out["lint"].get("files", [])} if isinstance(base_out["lint"], dict) else set()
+            names = sorted({x for pair in links for x in pair if not x.endswith("REUSE.toml")} | {x for x in link_files if not x.endswith((".license", "REUSE.toml"))})
+            extra["links"] = links
+            extra["link_names_not_reported"] = [x for x in names if x not in reported]
         return json.dumps({"configs": nconf, "files": files_n, "compliant": base_out["lint"].get("summary", {}).get("compliant"),
                            "tracebacks": base_out["tracebacks"], "diffs": diffs, **({"submodules": sub_truth} if submodules else {}), **extra})
 
@@ -916,6 +967,10 @@ class RunsStream(Stream):
             if sm["included"] != sm["expected"]:
                 return "submodule-files-missing: with --include-submodules the run from the root lists %s, the submodules hold %s" % (
                     sm["included"][:6], sm["expected"][:6])
+        if r.get("link_names_not_reported"):
+            # generator ground truth: every name of a hard-linked inode is a regular file, not ignored: a covered file with a report
+            return "hard-link-not-reported: %s have no file report in the serial run from the root (hard links %s)" % (
+                r["link_names_not_reported"], r["links"])
         if r["diffs"]:
             kinds = sorted({d[0].split("=")[0].split(":")[0].split(" ")[0] for d in r["diffs"]})
             return "result-differs(%s): %d of %d configurations differ from the serial run in the root; %s" % (
@@ -931,7 +986,8 @@ class RunsStream(Stream):
     def show(self, case):
         name, files = R.gen_tree(case["seed"], case["kind"], case.get("plus"))
         return {"seed": case["seed"], "kind": case["kind"], "plus": case.get("plus"), "root_name": name, "files": sorted(files)[:60],
-                "special_files": R.gen_specials(case["seed"], case["kind"], files) if case.get("special") else []}
+                "special_files": R.gen_specials(case["seed"], case["kind"], files) if case.get("special") else [],
+                "hard_links": R.gen_links(case["seed"], case["kind"], files)[0] if case.get("links") else []}
 
 
 def table_roundtrip():
